@@ -26,9 +26,9 @@ ASSUMPTIONS = [
     "An exception is tolerated only if k is smaller than the byte length of the longest record including its line ends, or if a max_chunk_size was given that is smaller than file size + k + 2 (the documented 'no complete entry found' limit).",
 ]
 REQUIRED_CLASSES = ["k-divides-size", "no-final-newline", "gzip", "crlf", "lazy", "eager", "k-lt-size", "via-path", "max-chunk-size-given",
-                    "max-chunk-size-never-reached", "chunks-then-read-gzip"]
+                    "max-chunk-size-never-reached", "chunks-then-read-gzip", "comment-lines-between-records"]
 BOUNDS = {
-    "quick": "core: widths {1,2}, up to 3 records, all 10 formats, all k in 1..size+2, all 16 flag combinations (every 4th case from each of 4 offsets = complete), plus a 1-in-8 stride sample of the same core with widths {1,5}; 40 sampled files for each of 17 formats",
+    "quick": "core: widths {1,2}, up to 3 records, all 10 formats, all k in 1..size+2, all 16 flag combinations (every 4th case from each of 4 offsets = complete), plus a 1-in-8 stride sample of the same core with widths {1,5}; 100 sampled files for each of 17 formats",
     "thorough": "core: widths {1,2,5}, up to 4 records, all 10 formats, all k, all 16 flag combinations; 500 sampled files for each of 17 formats",
 }
 BUDGET_S = {"quick": 300, "thorough": 1500}
@@ -112,6 +112,8 @@ def classify(case):
     last = len(formats.record_bytes(case, case["records"][-1])) - (0 if case.get("final_nl", True) else len(formats.eol(case)))
     if last % k == 0:
         cl.append("k-divides-last-record")
+    if case.get("comments"):
+        cl.append("comment-lines-between-records")
     if not case.get("final_nl", True):
         cl.append("no-final-newline")
     cl.append("gzip" if case.get("gzip") else "plain")
@@ -258,6 +260,16 @@ def sampled_case(draw, fmt, max_records, W):
             case["records"] = case["records"] * 2
     else:
         case = draw(S.file_case(fmt, min_records=2, max_records=max_records, W=W, canonical=True))
+    if fmt in ("wig", "gff") and draw(st.booleans()):
+        # comment lines between the records (one to three in a row, so that a chunk can end up holding comment lines only)
+        n_ = len(case["records"])
+        L_ = max(len(formats.record_bytes(case, r)) for r in case["records"])
+        # (the second comment line is longer than any record when 'long' is drawn: a chunk size that holds every record can still end inside it)
+        long_ = "." * (draw(st.sampled_from([0, 1, 2])) * L_)
+        comments = {str(i): ["#c", "# interior comment" + long_, "#x\ty"][:draw(st.integers(1, 3))] for i in draw(st.lists(st.integers(1, n_ - 1), min_size=1, max_size=3, unique=True))}
+        if comments:
+            case["comments"] = comments
+            case["header"] = [h.replace("\t", " ") for h in case["header"]]
     data = formats.serialize(case)
     size = len(data)
     rec_sizes = [len(formats.record_bytes(case, r)) for r in case["records"]]
@@ -276,9 +288,13 @@ def sampled_case(draw, fmt, max_records, W):
     for b in bounds[:6] + bounds[-3:]:
         interesting.update([b - 1, b, b + 1, b + hdr])
     interesting.update([size - 1, size, size + 1, size + 2])
+    if case.get("comments"):
+        interesting.update([max(rec_sizes), max(rec_sizes) + 1, max(rec_sizes) + 20])
     interesting = sorted(x for x in interesting if 1 <= x <= size + 2)
     # (very small chunk sizes on files of tens of kilobytes cost quadratic time without showing anything new)
-    k = max(draw(st.one_of(st.sampled_from(interesting), st.integers(1, size + 2))), size // 2000)
+    k = max(draw(st.one_of(st.sampled_from(interesting), st.integers(1, size + 2))), size // 200)
+    if case.get("comments") and draw(st.booleans()):
+        k = max(rec_sizes) + draw(st.sampled_from([0, 1, 20, max(rec_sizes) // 2]))        # holds every record, not every run of comment lines
     case.update(k=k, gzip=draw(st.booleans()), lazy=draw(st.booleans()))
     if draw(st.integers(0, 9)) == 0:
         case["via_path"] = True
@@ -302,7 +318,7 @@ def tasks(tier, seed):
     if tier == "quick":
         # (the sampled files first: they are the cheaper and the more varied part, and must not be the part a time budget cuts off)
         for i, fmt in enumerate(FMTS + SAMPLED_ONLY):
-            out.append(("task_sampled", dict(fmt=fmt, n=40, seed=seed * 1000 + i, max_records=20, W=20)))
+            out.append(("task_sampled", dict(fmt=fmt, n=100, seed=seed * 1000 + i, max_records=20, W=20)))
         for j in range(3):
             # (typed VCF again, with small files: which INFO item ends a chunk matters there)
             out.append(("task_sampled", dict(fmt="vcf-typed", n=120, seed=seed * 1000 + 500 + j, max_records=6, W=6)))
